@@ -1,18 +1,20 @@
 /-
   C05 — Server-initiated traffic reaches exactly the addressed session.
 
-  Full statement wanted: a notification / request sent inside session `s` is written once, in sending order (per kind),
-  on `s`'s stream and on no other; a broadcast / filtered send reaches every selected session with an open stream once
-  and reports that number; the answer accepted for a server-issued request was posted by the session the request was
-  sent to; answer / timeout / cancel leave nothing pending.
+  Full statement: a notification / request sent inside session `s` is written once, in sending order (per kind), on `s`'s
+  stream and on no other; a broadcast / filtered send reaches every selected session with an open stream once and reports
+  that number; the answer accepted for a server-issued request was posted by the session the request was sent to; answer /
+  timeout / cancel leave nothing pending.
 
-  On the current tree three parts are false and get `_partial` + `_counterexample` theorems (the regenerated facts put the
-  source in that region, `C05_fact_region`):
-  * D13 — the pending tables are keyed by the id only and no lookup site looks at the posting session: a foreign
-    session's answer is accepted (`C05_answer_from_addressee_counterexample`, Streamable and legacy SSE);
-  * D14 — nothing ever calls `Initialize()` on a legacy SSE session, `sendNotificationToSession` refuses every send
+  The model is a family indexed by structural facts of the source (`Facts`, regenerated and decided: `C05_fact_region`).
+  Since the repairs of D01, D13 and D14 the source is in the good region and the full statement holds for today's facts
+  (`C05_answer_from_addressee_today`, `C05_sse_notification_today`, `C05_nothing_left`, `C05_key_roundtrip`). The bad
+  regions stay in the family, with their witnesses as theorems about explicit bad facts:
+  * D13 — a lookup that does not look at the posting session accepts a foreign session's answer
+    (`C05_answer_from_addressee_counterexample`, Streamable and legacy SSE);
+  * D14 — if nothing ever marks a legacy SSE session initialized, `sendNotificationToSession` refuses every send
     (`C05_sse_notification_counterexample`);
-  * D01 — the Streamable table is `%v`-keyed: from request number 10^6 on even the addressee's answer is not matched
+  * D01 — a `%v`-keyed Streamable table loses even the addressee's answer from request number 10^6 on
     (`C05_answer_lost_witness`).
 -/
 import Mcp.Model.Routing
@@ -555,44 +557,75 @@ theorem C05_answer_from_addressee (srv : Server) (f : Facts) (hf : f.answerCheck
   | nil => intro s h; simpa [run] using h
   | cons o os ih => intro s h; rw [run_cons]; exact ih _ (ainv_step srv f hf s o h)
 
-/-- **Counterexample on the current tree (D13), Streamable**: two sessions with open streams; the server asks session 0 for
+/-- **Counterexample for a lookup by the id alone (D13, the tree before the repair), Streamable**: two sessions with open streams; the server asks session 0 for
     its roots (request tagged 7, id 1); session 1 posts an answer bearing id 1; `ListRoots` inside session 0 returns
     session 1's payload. -/
 theorem C05_answer_from_addressee_counterexample :
-    (run (.streamable false) ⟨false, false, true⟩ (init (.streamable false) 0)
+    (run (.streamable false) ⟨true, false, true, true⟩ (init (.streamable false) 0)
       [.newSession, .newSession, .openStream 0, .openStream 1, .request 0 7, .postAnswer 1 (.num 1) 99, .complete 7]).2
       = [.sid 0, .sid 1, .ok, .ok, .issued 1, .posted 202, .answered 1 99] := by decide
 
 /-- the same on the legacy SSE server (`handleResponseMessage` ignores its session argument). -/
 theorem C05_answer_from_addressee_counterexample_sse :
-    (run .legacySse ⟨false, false, true⟩ (init .legacySse 0)
+    (run .legacySse ⟨true, false, true, true⟩ (init .legacySse 0)
       [.newSession, .newSession, .request 0 7, .postAnswer 1 (.num 1) 99, .complete 7]).2
       = [.sid 0, .sid 1, .issued 1, .posted 202, .answered 1 99] := by decide
 
 /-- with a session-checking lookup the foreign answer is ignored and the addressee's own answer is accepted. -/
 theorem C05_answer_checked_example :
-    (run (.streamable false) ⟨true, false, true⟩ (init (.streamable false) 0)
+    (run (.streamable false) ⟨true, true, true, true⟩ (init (.streamable false) 0)
       [.newSession, .newSession, .openStream 0, .openStream 1, .request 0 7, .postAnswer 1 (.num 1) 99, .postAnswer 0 (.num 1) 55, .complete 7]).2
       = [.sid 0, .sid 1, .ok, .ok, .issued 1, .posted 202, .posted 202, .answered 0 55] := by decide
 
-/-- **D01 on the server side**: the Streamable pending table is `%v`-keyed. A server whose request counter stands at
+/-- **D01 on the server side (a `%v`-keyed table, the tree before the repair)**: a server whose request counter stands at
     999 999 asks session 0; the addressee itself posts the answer with the echoed id 1000000 — it is not matched
-    (`"1e+06"` vs `"1000000"`), the request can only time out. -/
+    (`"1e+06"` vs `"1000000"`), the request can only time out. With `requestIDKey` the same history is answered. -/
 theorem C05_answer_lost_witness :
-    (run (.streamable false) ⟨false, false, true⟩ (init (.streamable false) 999999)
+    (run (.streamable false) ⟨false, true, true, true⟩ (init (.streamable false) 999999)
       [.newSession, .openStream 0, .request 0 7, .postAnswer 0 (.num 1000000) 55, .complete 7, .timeout 7]).2
-      = [.sid 0, .ok, .issued 1000000, .posted 202, .err .disabled, .failed] := by decide
+      = [.sid 0, .ok, .issued 1000000, .posted 202, .err .disabled, .failed] ∧
+    (run (.streamable false) ⟨true, true, true, true⟩ (init (.streamable false) 999999)
+      [.newSession, .openStream 0, .request 0 7, .postAnswer 0 (.num 1000000) 55, .complete 7]).2
+      = [.sid 0, .ok, .issued 1000000, .posted 202, .answered 0 55] := by decide
+
+/-- **Key round trip of the three server tables** for today's key kinds (Streamable: `requestIDKey`; legacy SSE and stdio:
+    `uint64`): for every request number 1 ≤ n ≤ 2^53 the key computed from the id of the client's answer is the key the
+    request was registered under. -/
+theorem C05_key_roundtrip (f : Facts) (hf : f.streamableIdKey = true) (srv : Server) (n : Nat) (_h1 : 1 ≤ n) (h : n ≤ 2 ^ 53) :
+    keyOfWire (keyKind f srv) (Mcp.Pending.wireOf n) = keyOfReq (keyKind f srv) (.int (Int.ofNat n)) := by
+  have hf64 : f64OfNat n = n := by
+    by_cases hn : n < 2 ^ 53
+    · exact f64OfNat_small hn
+    · have : n = 9007199254740992 := by omega
+      subst this; decide
+  have hw : Mcp.Pending.wireOf n = .num (Int.ofNat n) := by
+    simp [Mcp.Pending.wireOf, Mcp.Pending.echoId, Mcp.Pending.encodeId, Mcp.Pending.decodeId, Mcp.Pending.reencodeId, f64OfInt, hf64]
+  have hnn : (0 : Int) ≤ Int.ofNat n := Int.natCast_nonneg n
+  have hlt : Int.ofNat n < 2 ^ 64 := by
+    show (n : Int) < 2 ^ 64
+    omega
+  rw [hw]
+  cases srv
+  · simp [keyKind, hf, keyOfWire, Mcp.Pending.decodeId, Mcp.Pending.keyOfDec, keyOfReq, f64OfInt, hf64]
+  all_goals
+    simp only [keyKind, keyOfWire, Mcp.Pending.decodeId, Mcp.Pending.keyOfDec, keyOfReq, f64OfInt, hf64, u64OfF64, u64OfI64]
+    have h2 : (↑n : Int) < 2 ^ 64 := hlt
+    have h3 : (0 : Int) ≤ (↑n : Int) := hnn
+    simp [h3]
+    intro hx
+    omega
 
 /-! ## legacy SSE notifications (D14) -/
 
-/-- **On the current tree a legacy SSE session never becomes initialized**: every `SendNotification` fails with "session
-    not initialized" and nothing is written, although the session exists and its stream is open. -/
+/-- **If nothing ever marks a legacy SSE session initialized (D14, the tree before the repair)**: every `SendNotification`
+    fails with "session not initialized" and nothing is written, although the session exists and its stream is open. -/
 theorem C05_sse_notification_counterexample (f : Facts) (hf : f.sseInitialized = false) (s : St) (a m : Nat) :
     (step .legacySse f s (.send a m)).2 ≠ .ok ∧ (step .legacySse f s (.send a m)).1 = s := by
   by_cases h : a ∈ s.sessions <;> simp [step, canNotify, hf, h]
 
-/-- once sessions do get initialized, a send to an existing session is written on its stream. -/
-theorem C05_sse_notification_partial (f : Facts) (hf : f.sseInitialized = true) (s : St) (a m : Nat) (ha : s.sessions.contains a = true) :
+/-- **Legacy SSE notifications**: once the handshake marks the session initialized, a send to an existing session succeeds
+    and is written on its stream. -/
+theorem C05_sse_notification (f : Facts) (hf : f.sseInitialized = true) (s : St) (a m : Nat) (ha : s.sessions.contains a = true) :
     (step .legacySse f s (.send a m)).2 = .ok ∧
     (step .legacySse f s (.send a m)).1.delivered = s.delivered ++ [(a, ⟨.notif, a, m⟩)] := by
   have ha' : a ∈ s.sessions := List.contains_iff_mem.mp ha
@@ -698,37 +731,55 @@ theorem C05_nothing_left (srv : Server) (f : Facts) (hf : f.deferredDelete = tru
 
 /-- without the deferred delete a timed-out request would stay in the table for ever. -/
 theorem C05_leak_witness :
-    let s := (run .legacySse ⟨false, true, false⟩ (init .legacySse 0) [.newSession, .request 0 7, .timeout 7]).1
+    let s := (run .legacySse ⟨true, true, true, false⟩ (init .legacySse 0) [.newSession, .request 0 7, .timeout 7]).1
     s.waiting = [] ∧ s.pending.length = 1 := by decide
 
 /-! ## regenerated facts (T-gen) -/
 
 /-- The region of the model family the current source is in (`Mcp.Routing.factsToday`, computed from the regenerated
-    facts): no pending-table lookup takes the posting session into account (D13); nothing calls a session's `Initialize()`
-    while `sendNotificationToSession` insists on it (D14); every insert has its deferred delete. -/
-theorem C05_fact_region : factsToday = ⟨false, false, true⟩ := by decide
+    facts): the Streamable table renders ids with `requestIDKey` on both sides; every lookup site of the two multi-session
+    tables compares the posting session with the entry's; something marks a session initialized; every insert has its
+    deferred delete. -/
+theorem C05_fact_region : factsToday = ⟨true, true, true, true⟩ := by decide
 
-/-- the three server tables are keyed as the model keys them (`keyKind`): Streamable by `%v`, legacy SSE and stdio by
-    `uint64` through `parseRequestID`. -/
+/-- **The accepted answer comes from the addressee — today's source**: for every history on every server kind. -/
+theorem C05_answer_from_addressee_today (srv : Server) (start : Nat) (ops : List Op) :
+    ∀ r ∈ (run srv factsToday (init srv start) ops).1.results, ∀ p pl, r.answer = some (p, pl) → p = r.to :=
+  C05_answer_from_addressee srv factsToday (by rw [C05_fact_region]) start ops
+
+/-- **Legacy SSE notifications reach the session — today's source.** -/
+theorem C05_sse_notification_today (s : St) (a m : Nat) (ha : s.sessions.contains a = true) :
+    (step .legacySse factsToday s (.send a m)).2 = .ok ∧
+    (step .legacySse factsToday s (.send a m)).1.delivered = s.delivered ++ [(a, ⟨.notif, a, m⟩)] :=
+  C05_sse_notification factsToday (by rw [C05_fact_region]) s a m ha
+
+/-- **Nothing left — today's source.** -/
+theorem C05_nothing_left_today (srv : Server) (start : Nat) (ops : List Op) :
+    let s := (run srv factsToday (init srv start) ops).1
+    s.pending.map PEntry.tag = s.waiting ∧ (s.waiting = [] → s.pending = []) :=
+  C05_nothing_left srv factsToday (by rw [C05_fact_region]) start ops
+
+/-- the three server tables are keyed as the model keys them (`keyKind`): Streamable by `requestIDKey`, legacy SSE and
+    stdio by `uint64` through `parseRequestID`. -/
 theorem C05_fact_keys :
     (Mcp.Gen.pdTables.filter (fun t => t.name = t!"streamable_server.pendingRequests" ∨ t.name = t!"sse_server.responses" ∨ t.name = t!"stdio_server.responses")).map
       (fun t => (t.name, t.insertKind, t.lookupKinds)) =
       [ (t!"sse_server.responses", t!"uint64OfInt64", [t!"parseRequestID", t!"parseRequestID"]),
         (t!"stdio_server.responses", t!"uint64OfInt64", [t!"parseRequestID"]),
-        (t!"streamable_server.pendingRequests", t!"sprintfV", [t!"sprintfV"]) ] := by decide
+        (t!"streamable_server.pendingRequests", t!"idKey", [t!"idKey"]) ] := by decide
 
 /-! ## non-vacuity -/
 
 -- three sessions, two with streams: a broadcast reaches two, a send to the third fails, a filtered send reaches one
 example :
-    let r := run (.streamable false) ⟨false, false, true⟩ (init (.streamable false) 0)
+    let r := run (.streamable false) ⟨true, true, true, true⟩ (init (.streamable false) 0)
       [.newSession, .newSession, .newSession, .openStream 0, .openStream 2, .broadcast 10, .send 1 11, .filtered [1, 2] 12, .send 2 13]
     r.2 = [.sid 0, .sid 1, .sid 2, .ok, .ok, .count 2 none, .err .noStream, .counts 1 1 none, .ok] ∧
     outboxTags r.1 0 .notif = [10] ∧ outboxTags r.1 1 .notif = [] ∧ outboxTags r.1 2 .notif = [10, 12, 13] := by decide
 
 -- stdio: a request answered by the one session; nothing pending afterwards
 example :
-    let r := run .stdio ⟨false, false, true⟩ (init .stdio 0) [.request 0 5, .send 0 6, .postAnswer 0 (.num 1) 42, .complete 5]
+    let r := run .stdio ⟨true, true, true, true⟩ (init .stdio 0) [.request 0 5, .send 0 6, .postAnswer 0 (.num 1) 42, .complete 5]
     r.2 = [.issued 1, .ok, .posted 202, .answered 0 42] ∧ r.1.pending = [] ∧ outboxTags r.1 0 .req = [5] := by decide
 
 end Mcp.Props.C05
